@@ -84,7 +84,7 @@ def spx_site(loc, repo=vlib.REPO):
 def main(tier):
     c = vlib.Check("C01", tier)
     c.phase_proofs()
-    recs_cm = cm_tie.tie_cm(c, 800 if tier == "quick" else 8000, 300 if tier == "quick" else 3000)
+    recs_cm = cm_tie.tie_cm(c, 500 if tier == "quick" else 8000, 200 if tier == "quick" else 3000)
     if recs_cm is None:
         c.finish(rule="build failed")
     rng = c.rng
@@ -106,7 +106,7 @@ def main(tier):
     fams = families(rng, tier)
     osets = option_sets(rng, tier)
     cases = []
-    n = 2500 if tier == "quick" else 25000
+    n = 2000 if tier == "quick" else 25000
     for _ in range(n):
         d = docgen.gen_malformed(rng) if rng.random() < 0.55 else docgen.gen_doc(rng)
         cases.append((d, docgen.gen_opts(rng) if rng.random() < 0.5 else rng.choice(osets)))
